@@ -244,8 +244,12 @@ def run_b(case):
 
 CORRUPT = ['{"k": 1', 'bareword', '[1, 2', '{]', '"unterminated', '{"a":}', '\xe9{', '}',
            # undecodable because it is nested deeper than the decoder can follow (json.loads raises RecursionError, not ValueError)
-           '[' * 3000, '{"a":' * 3000]
+           '[' * 3000, '{"a":' * 3000,
+           # not valid UTF-8 (binary-mode files only): a record torn inside a multi-byte character, stray bytes.  Written with
+           # surrogateescape: '\udcc3' stands for the byte 0xC3
+           '{"id": 19, "name": "caf\udcc3', '\udcff\udcfe{}', '"\udce2\udc82"']
 DEEP = {8, 9}
+NOT_UTF8 = {10, 11, 12}
 _json_val = st.one_of(
     st.integers(-5, 1000),
     st.text(alphabet='ab \xe9\u20ac\U0001f600"\\', max_size=5),
@@ -285,7 +289,7 @@ def _build_c(case):
                 aligned += 1
                 val = {'v': v, 'i': i, 'pad': ''}
                 line = json.dumps(val, ensure_ascii=False)
-                cur_end = offset + len(line.encode('utf-8'))
+                cur_end = offset + len(line.encode('utf-8', 'surrogateescape'))
                 target = ((cur_end // 4096) + 1) * 4096 + align
                 val['pad'] = 'p' * (target - cur_end)
             line = json.dumps(val, ensure_ascii=False)
@@ -294,15 +298,18 @@ def _build_c(case):
             line = ' ' * v
             objs.append(('blank',))
         elif k == 'corrupt':
-            line = CORRUPT[v % len(CORRUPT)]
-            objs.append(('corrupt', 'deep') if v % len(CORRUPT) in DEEP else ('corrupt',))
+            ci = v % len(CORRUPT)
+            if ci in NOT_UTF8 and case['text_mode']:
+                ci %= 8         # a text-mode file cannot even be iterated over such bytes: outside the statement
+            line = CORRUPT[ci]
+            objs.append(('corrupt', 'deep') if ci in DEEP else (('corrupt', 'not-utf8') if ci in NOT_UTF8 else ('corrupt',)))
         else:
             raise HarnessError('bad record kind %r' % (k,))
         last = i == len(recs) - 1
         piece = line + ('' if (last and not case['final']) else sep)
         chunks.append(piece)
-        offset += len(piece.encode('utf-8'))
-    return ''.join(chunks).encode('utf-8'), objs
+        offset += len(piece.encode('utf-8', 'surrogateescape'))
+    return ''.join(chunks).encode('utf-8', 'surrogateescape'), objs
 
 
 def unpoison(o):
@@ -333,6 +340,8 @@ def run_c(case):
         out.label('longer_than_block')
     if has_corrupt:
         out.label('corrupt_line')
+    if any(o[0] == 'corrupt' and o[1:] == ('not-utf8',) for o in objs):
+        out.label('corrupt_line_not_utf8')
     if has_blank:
         out.label('blank_line')
     if objs and objs[0][0] == 'blank':
